@@ -121,6 +121,8 @@ type Engine struct {
 	publish                                             func([]int8)
 	fsRoot                                              string
 	violatedOnPath                                      bool
+	vfsMarks                                            []map[string]string
+	vfsOnlyMarks                                        [][]string
 	vfsOnlyPrefixes                                     []string
 	globOrder                                           func([]string) []string
 	methodCache                                         map[methodKey]*ssa.Function
